@@ -951,7 +951,45 @@ def r8_headers_wrapper_keeps_the_response(ctx):
     c12.r5_header_order(Renamed(ctx, "C07.R8", "a headers wrapper keeps the inner response (status, body, Content-Type) and only adds headers to it"))
 
 
-RULES = [("C07.R8", r8_headers_wrapper_keeps_the_response), ("C07.R7", r7_framework_errors_use_endpoint_error_type), ("C07.R1", r1_type_parameter), ("C07.R2", r2_location), ("C07.R3", r3_content_type), ("C07.R4", r4_response),
+def r9_error_reference_names_the_stored_response(ctx):
+    """Added after adversary change C07-E: the `$ref` handed to operations named the un-disambiguated error type, so the second of
+    two error types with the same name was documented with the first one's schema."""
+    from .lib_c01 import access_path, VALUE_PRESERVING
+    R = ctx.rule("C07.R9", "an operation's 4XX/5XX reference names exactly the components.responses entry that holds its error type's schema: in every ErrorResponse built by "
+                 "gen_openapi the name interpolated into `#/components/responses/{..}` is the value stored as the entry's name, and that name is the key the entry is published under", floor=3)
+    ds = ctx.ds
+    g = ctx.need_fn(ds, R, r"^api_description::ApiDescription::<Context>::gen_openapi$")
+    sites = [(f, bb, st) for f in [g] + ds.descendants(g) for bb, i, st in f.aggregates(r"gen_openapi::ErrorResponse$") if bb in f.reachable(0)]
+    ctx.check(R, "error-response-sites", len(sites) >= 1, "ErrorResponse values built under gen_openapi: %d" % len(sites), g, nontrivial=False)
+    for f, bb, st in sites:
+        name_p = access_path(f, agg_field_op(st, "name"), VALUE_PRESERVING)
+        ref_sl = f.slice(agg_field_op(st, "reference"), stop_at_calls=r"fmt::rt::Argument::<'_>::new_display$")   # this format!'s own arguments only
+        lits = lit_strs(ref_sl)
+        prefix_ok = any("#/components/responses/" in x for x in lits)
+        shown = []
+        for c, cb, ct in ref_sl.calls(r"fmt::rt::Argument::<'_>::new_display$"):
+            shown.append(access_path(f, ct["args"][0], VALUE_PRESERVING))
+        same = len(shown) == 1 and shown[0].root == name_p.root and shown[0].path == name_p.path
+        ctx.check(R, "reference-names-the-entry", prefix_ok and same,
+                  "reference = format!(\"#/components/responses/{}\", %s); entry name = %r" % (", ".join(repr(x) for x in shown) or "?", name_p), (f, bb))
+    # the entry is published under that name
+    pubs = 0
+    for bb, t in g.live_calls(r"indexmap::IndexMap::<K, V, S>::insert$"):
+        if len(t["args"]) < 3:
+            continue
+        vs = g.slice(t["args"][2], stop_at_calls=r"iter::Iterator::next$")
+        if not (vs.reads_field("response") and vs.calls(r"iter::Iterator::next$") and g.slice(t["args"][1], stop_at_calls=r"iter::Iterator::next$").reads_field("name")):
+            continue    # not the publication of an ErrorResponse drawn from the collection
+        kp = access_path(g, t["args"][1], VALUE_PRESERVING)
+        vp = access_path(g, t["args"][2], VALUE_PRESERVING)
+        pubs += 1
+        ks, rs = g.slice(t["args"][1], stop_at_calls=r"iter::Iterator::next$"), vs
+        same_item = ks.reads_field("name") and bool(set(b for _, b, _ in ks.calls(r"iter::Iterator::next$")) & set(b for _, b, _ in rs.calls(r"iter::Iterator::next$")))
+        ctx.check(R, "entry-published-under-its-name", same_item, "components.responses.insert(%r, Item(%r)): key is the `name` of the same ErrorResponse: %s" % (kp, vp, same_item), (g, bb))
+    ctx.check(R, "publication-site", pubs >= 1, "insertions of an ErrorResponse's response into a map: %d" % pubs, g, nontrivial=False)
+
+
+RULES = [("C07.R9", r9_error_reference_names_the_stored_response), ("C07.R8", r8_headers_wrapper_keeps_the_response), ("C07.R7", r7_framework_errors_use_endpoint_error_type), ("C07.R1", r1_type_parameter), ("C07.R2", r2_location), ("C07.R3", r3_content_type), ("C07.R4", r4_response),
          ("C07.R5", r5_error_schema), ("C07.R6", r6_required)]
 
 A = "dropshot/src/api_description.rs"
@@ -1090,3 +1128,4 @@ SELFTEST = [
 ]
 
 LEVEL_TEXT += " Also (R7): every framework-generated error on the endpoint path is converted through the endpoint's declared error type before it becomes a response, so its body matches the documented error schema of a custom error type."
+LEVEL_TEXT += " Also (R9): the $ref an operation uses for its error responses names the components.responses entry that holds that error type's schema."
